@@ -416,7 +416,7 @@ fn part_a(maxlen: usize, acc: &mut Acc, worker: usize, nworkers: usize) {
 // ---------------------------------------------------------------------------------------------
 // part B: adversarial operands x every operand position x every follower
 // ---------------------------------------------------------------------------------------------
-const EXPR_CORPUS: [&str; 50] = [
+const EXPR_CORPUS: [&str; 68] = [
     "then",
     "map",
     "and_then",
@@ -467,6 +467,25 @@ const EXPR_CORPUS: [&str; 50] = [
     "|v| (1..=v)",
     "|| -> Result<u8, u8> { Ok(1) }",
     "|v| !v",
+    // operands with single top-level punctuation that also starts operators, and operands ENDING in punctuation
+    "a | b",
+    "|v| v | 1",
+    "|a, b| a | b",
+    "a | b | c",
+    "a || b",
+    "a & b",
+    "a ^ b",
+    "a < b",
+    "a == b",
+    "a != b",
+    "x?",
+    "g()?",
+    "|v| v?",
+    "|v| v.ok()?",
+    "-x",
+    "&x",
+    "|v| v as Vec<u8>",
+    "Vec::<u8>::new()?",
 ];
 const TYPE_CORPUS: [&str; 8] = [
     "Vec<Vec<i32>>",
@@ -480,7 +499,33 @@ const TYPE_CORPUS: [&str; 8] = [
 ];
 const MEMBER_CORPUS: [&str; 7] = ["iter().map(|x| -> u8 { *x })", "get::<A, B>(1)", "0", "await", "collect::<Vec<Vec<u8>>>()", "then", "map"];
 
+/// the operator text `rest` is written directly behind the operand `adv` (no white space): fine unless a splitter that starts INSIDE
+/// the operand's tokens now completes across the junction behind a complete prefix (then the input means something else)
+fn junction_ok(adv: &str, rest: &str, as_type: bool) -> bool {
+    let n_adv = match TokenStream::from_str(adv) {
+        Ok(t) => t.into_iter().count(),
+        Err(_) => return false,
+    };
+    let tts: Vec<TokenTree> = match TokenStream::from_str(&format!("{}{}", adv, rest)) {
+        Ok(t) => t.into_iter().collect(),
+        Err(_) => return false,
+    };
+    // gluing must not change the tokens themselves (e.g. a literal suffix)
+    let sep: Vec<TokenTree> = TokenStream::from_str(&format!("{} {}", adv, rest)).unwrap().into_iter().collect();
+    if sep.len() != tts.len() || sep.iter().zip(tts.iter()).any(|(a, b)| a.to_string() != b.to_string()) {
+        return false;
+    }
+    let complete = |t: TokenStream| if as_type { syn::parse2::<syn::Type>(t).is_ok() } else { syn::parse2::<syn::Expr>(t).is_ok() };
+    for i in 1..n_adv {
+        if starts_with_splitter(&tts[i..]) && complete(tts[..i].iter().cloned().collect()) {
+            return false;
+        }
+    }
+    true
+}
+
 fn part_b(acc: &mut Acc) {
+    let map_op = OPS.iter().position(|o| o.0 == "|>").unwrap();
     let followers: Vec<(usize, bool, bool, u8)> = instances().into_iter().filter(|t| t.0 != usize::MAX).collect();
     for (opi, (_, name, kind, _)) in OPS.iter().enumerate() {
         let positions: usize = match kind {
@@ -517,7 +562,28 @@ fn part_b(acc: &mut Acc) {
                             insts.push(mk_inst(f, &mut c, false));
                         }
                         let (txt, br) = render_chain("m0", None, &insts, false);
-                        acc.check(&txt, &Structure { branches: vec![br], handler: None }, "B:adversarial-operand");
+                        // white space is not part of the token stream: an operand that ends in punctuation may complete a DIFFERENT
+                        // operator together with what follows it (`x? |> f` is `x ?|> f`); such inputs are outside the premise
+                        let needle = format!("{} ", adv);
+                        let junction = txt.find(&needle).map(|at| (at, txt[at + needle.len()..].to_string()));
+                        if let Some((_, rest)) = &junction {
+                            if *name != "Dot" && !junction_ok(adv, rest, as_type) {
+                                acc.excluded += 1;
+                                continue;
+                            }
+                        }
+                        acc.check(&txt, &Structure { branches: vec![br.clone()], handler: None }, "B:adversarial-operand");
+                        // the same with NO white space between the adversarial operand and what follows it (same tokens, other spacing flags)
+                        if let Some((at, rest)) = &junction {
+                            if *name != "Dot" {
+                                let tight = format!("{}{}", &txt[..at + adv.len()], rest);
+                                acc.check(&tight, &Structure { branches: vec![br.clone()], handler: None }, "B:adversarial-operand-tight");
+                            }
+                        }
+                        // the same followed by a second branch: when the operand is the last thing of the branch, the `,` follows it
+                        let second = [mk_inst((map_op, false, false, 0), &mut c, false)];
+                        let (t2, b2) = render_chain("m90", None, &second, false);
+                        acc.check(&format!("{}, {}", txt, t2), &Structure { branches: vec![br, b2], handler: None }, "B:adversarial-operand-2branches");
                     }
                 }
             }
@@ -537,7 +603,13 @@ fn part_b(acc: &mut Acc) {
             let mut c = 0usize;
             let insts = vec![mk_inst(followers[fi], &mut c, false)];
             let (txt, br) = render_chain(adv, None, &insts, false);
-            acc.check(&txt, &Structure { branches: vec![br], handler: None }, "B:adversarial-initial");
+            let rest = txt[adv.len() + 1..].to_string();
+            if !junction_ok(adv, &rest, false) {
+                acc.excluded += 1;
+                continue;
+            }
+            acc.check(&txt, &Structure { branches: vec![br.clone()], handler: None }, "B:adversarial-initial");
+            acc.check(&format!("{}{}", adv, rest), &Structure { branches: vec![br], handler: None }, "B:adversarial-initial-tight");
             let (txt2, br2) = render_chain(adv, Some("nm"), &insts, false);
             acc.check(&txt2, &Structure { branches: vec![br2], handler: None }, "B:adversarial-initial-let");
         }
